@@ -1363,9 +1363,23 @@ def custom_vjp(
   def inner(scope_fn, repack_fn, variable_groups, rng_groups, *args):
     grad_variables, other_variables = variable_groups
     scopes_treedef = None
+    # JAX may trace both `f` and `f_fwd`: the rng counters are shared with the
+    # outer scopes, so both traces start from the counts seen on entry.
+    rng_counts = [
+      dict(s.rng_counters)
+      for s in jax.tree_util.tree_leaves(
+        scope_fn((grad_variables, other_variables), rng_groups)
+      )
+    ]
+
+    def reset_rng_counts(scopes):
+      for s, counts in zip(jax.tree_util.tree_leaves(scopes), rng_counts):
+        s.rng_counters.clear()
+        s.rng_counters.update(counts)
 
     def f(grad_variables, *args):
       scope = scope_fn((grad_variables, other_variables), rng_groups)
+      reset_rng_counts(scope)
       y = fn(scope, *args)
       vars_out = repack_fn(scope)
       return y, vars_out
@@ -1375,6 +1389,7 @@ def custom_vjp(
     def f_fwd(grad_variables, *args):
       nonlocal scopes_treedef
       scopes = scope_fn((grad_variables, other_variables), rng_groups)
+      reset_rng_counts(scopes)
       scopes_treedef = jax.tree_util.tree_structure(scopes)
       y, res = forward_fn(scopes, *args)
       vars_out = repack_fn(scopes)
